@@ -73,3 +73,13 @@ def register(claim):
           NOTE_COMMON + " Known finding (pinned by a test): BodyLength is not compared with the frame, so a sum-preserving corruption is returned. "
           "'No single-byte corruption is ever returned' as arithmetic over all frames is not decided.",
           "DESIGN.md#c10")
+
+    claim("C03", "writer inventory + CFG path queries on the read loop, symbolic classification of the decoder's return paths, folded search literals (def-use to slice bounds)",
+          "Static, all partitions: the receive buffer is only appended with the bytes just read and replaced by its suffix at the consumed "
+          "length, before any await or re-decode; the decoder sees the whole buffer and is re-invoked until no message; every return taken "
+          "because data is missing consumes nothing of the candidate frame (the no-marker path keeps the longest suffix that is a proper "
+          "prefix of the marker); the incomplete test measures from the frame start; the frame extent is cut only at SOH-anchored patterns, "
+          "so a verdict for a complete frame does not depend on how much of the next one has arrived.",
+          NOTE_COMMON + " That the same messages come out for every partition of every stream is the behaviour itself and is not decided; "
+          "the rules decide the contracts whose violation makes a partition matter.",
+          "DESIGN.md#c03")
